@@ -584,7 +584,7 @@ pub fn run(tier: Tier, seed: u64, out: &str) {
             (Scenario::SnapshotAndReader, budget(8, 200)),
             (Scenario::TwoBaselineUpdates, budget(10, 300)),
             (Scenario::TwoChecksSharingCache, budget(8, 200)),
-            (Scenario::ThreeSnapshots, budget(6, 120)),
+            (Scenario::ThreeSnapshots, budget(14, 120)),
             (Scenario::SnapshotAndAutoCheck, budget(10, 200)),
         ];
         for (si, (sc, n)) in plan.into_iter().enumerate() {
